@@ -21,6 +21,8 @@ import (
 type Call struct {
 	Seq    int
 	Method string
+	// Ctx is the context of the call (ReplicateMessage only): lets a test keep the call in flight until it ends.
+	Ctx context.Context `json:"-"`
 	// RouteDB is ReplicateParam.Database: the database the real MilvusDataHandler would route the call to.
 	RouteDB string
 	// Req is the embedded request proto (deep copy) for request-style params, nil otherwise.
@@ -206,7 +208,7 @@ func (h *Handler) ReplicateMessage(ctx context.Context, p *api.ReplicateMessageP
 		bs[i] = append([]byte(nil), b...)
 	}
 	c := &Call{Method: "ReplicateMessage", RouteDB: p.Database, Base: cloneBase(p.Base), Channel: p.ChannelName, BeginTs: p.BeginTs, EndTs: p.EndTs,
-		MsgsBytes: bs, StartPos: clonePositions(p.StartPositions), EndPos: clonePositions(p.EndPositions)}
+		MsgsBytes: bs, StartPos: clonePositions(p.StartPositions), EndPos: clonePositions(p.EndPositions), Ctx: ctx}
 	err := h.rec(c)
 	if err == nil && h.TargetPosition != nil {
 		p.TargetMsgPosition = h.TargetPosition(c)
